@@ -316,7 +316,9 @@ def build_engine_config(cfg: dict):
         database="none",
         derandomize=cfg.get("derandomize"),
         max_examples=cfg.get("max_examples"),
-        phases=prepare_phases(cfg.get("no_shrink", False)),
+        # `hypothesis_phases_default`: leave Hypothesis' own phases untouched, as a Python API user who only sets a few
+        # options does (the command line always passes an explicit list)
+        phases=None if cfg.get("hypothesis_phases_default") else prepare_phases(cfg.get("no_shrink", False)),
         suppress_health_check=list(hypothesis.HealthCheck),
     )
     if cfg.get("stateful_step_count") is not None:
@@ -372,10 +374,13 @@ def run_api(
     keep_raw=False,
     callbacks=None,
     schema_loader=None,
+    stop_on_request=None,
 ):
     """Iterate `from_schema(schema, config).execute()` in this thread.
 
     stop_after=k: call stream.stop() right after the k-th event (0-based) was received.
+    stop_on_request=n: call stream.stop() from the API's side while it serves the n-th test request (a stop that
+    arrives in the middle of a scenario, not at an event boundary).
     interrupt_after=k: throw KeyboardInterrupt into the generator after the k-th event.
     """
     import schemathesis
@@ -390,6 +395,18 @@ def run_api(
     script = make_script(doc, rules, default)
     started = time.monotonic()
     raw = []
+    shared = {"stream": None, "served": 0}
+    if stop_on_request is not None:
+        inner_dynamic = dynamic
+
+        def dynamic(record, then):  # noqa: F811
+            if not any(k.lower() == "x-schemathesis-probe" for k, _ in record["headers"]) and record["path"] != SCHEMA_PATH:
+                shared["served"] += 1
+                if shared["served"] == stop_on_request and shared["stream"] is not None and result.stop_seq is None:
+                    result.stop_seq = next_seq()
+                    shared["stream"].stop()
+            return inner_dynamic(record, then) if inner_dynamic is not None else None
+
     with RecordingServer(script, dynamic=dynamic) as server:
         result.base_url = server.url
         if schema_loader is not None:
@@ -403,6 +420,7 @@ def run_api(
         ctx = ExecutionContext(seed=cfg.get("seed", 0))
         stream = from_schema(schema, config=config).execute()
         state = {"stream": stream}
+        shared["stream"] = stream
 
         def fire():
             result.hung = True
